@@ -466,6 +466,34 @@ class Program:
         l = self.by_short.get(short, [])
         return l[0] if len(l) == 1 else None
 
+    def view_inlined(self, b, rx, rounds=2):
+        """a copy of body b in which the direct calls to (known) functions of these crates whose path matches rx are replaced by the
+        callee's body - for rules that state a property of `b together with its helper` (e.g. the error value of optional_error may
+        be built by ArxmlParser::error).  Returns b itself when there is no such call."""
+        import inline, copy
+        raw = None
+        inl = list(getattr(b, 'inlined_ids', []))
+        for _ in range(rounds):
+            cur = raw if raw is not None else b.raw
+            sites = [blk['i'] for blk in cur['blocks'] if blk['term']['k'] == 'call' and (callee_of(blk['term']) or '') in self.bodies
+                     and re.search(rx, callee_of(blk['term'])) and callee_of(blk['term']) != b.id]
+            if not sites:
+                break
+            if raw is None:
+                raw = copy.deepcopy(b.raw)
+            for bi in sites:
+                cid = callee_of(raw['blocks'][bi]['term'])
+                raw = inline.inline_into(raw, self.bodies[cid].raw, bi)
+                if cid not in inl:
+                    inl.append(cid)
+        if raw is None:
+            return b
+        nb = Body(raw, b.crate)
+        nb.short = b.short
+        nb.inlined_ids = inl
+        nb.program = self
+        return nb
+
     def closures_of(self, b):
         pres = tuple(i + '::{closure#' for i in [b.id] + list(getattr(b, 'inlined_ids', [])))
         return [x for x in self.bodies.values() if x.id.startswith(pres)]
